@@ -55,6 +55,22 @@ USER = {
     "gsub": "feature liga { sub a b by f_i; } liga;\n",
     "kern-marker": "feature kern {\n    pos period period -5;\n    # Automatic Code\n} kern;\n",
 }
+# the same writers configured another way: through the UFO lib key (options, another order), through
+# the featureWriters argument in another order, or with the legacy kern writer
+KEY = "com.github.googlei18n.ufo2ft.featureWriters"
+WRITER_CONFIGS = {
+    "lib-append": [{"class": "CursFeatureWriter"}, {"class": "KernFeatureWriter", "options": {"mode": "append"}},
+                   {"class": "MarkFeatureWriter", "options": {"mode": "append"}}, {"class": "GdefFeatureWriter"}],
+    "lib-kern-last": [{"class": "MarkFeatureWriter"}, {"class": "CursFeatureWriter"}, {"class": "GdefFeatureWriter"},
+                      {"class": "KernFeatureWriter"}],
+    "lib-noignoremarks": [{"class": "CursFeatureWriter"},
+                          {"class": "KernFeatureWriter", "options": {"ignoreMarks": False, "quantization": 5}},
+                          {"class": "MarkFeatureWriter", "options": {"quantization": 2}}, {"class": "GdefFeatureWriter"}],
+    "legacy-kern2": [{"class": "CursFeatureWriter"},
+                     {"class": "KernFeatureWriter", "module": "ufo2ft.featureWriters.kernFeatureWriter2"},
+                     {"class": "MarkFeatureWriter"}, {"class": "GdefFeatureWriter"}],
+    "args-mark-first": "args",
+}
 GENERATED_ATTACH = ("mark", "mkmk", "abvm", "blwm", "curs")
 GENERATED_KERN = ("kern", "dist")
 
@@ -198,7 +214,9 @@ class C20(Property):
     trusted_base = ["fontTools binary reader", "fontTools.unicodedata", "mc/otl_ref.py"]
 
     def bounds(self, tier):
-        return {"depth": 0, "flavours": ["ttf"] if tier == "quick" else ["ttf", "otf"]}
+        return {"depth": 0, "flavours": ["ttf", "otf"],
+                "writer_configs": sorted(WRITER_CONFIGS) if tier == "thorough" else
+                ["lib-append", "lib-kern-last", "legacy-kern2", "args-mark-first"]}
 
     def initial(self, b):
         out = []
@@ -225,6 +243,10 @@ class C20(Property):
                                         for sc in LS_SCENARIOS:
                                             out.append([{"mix": mix, "kern": kern, "anch": anch, "ls": sc,
                                                          "user": user, "flavour": "vttf"}])
+                                if ls in ((0, 0, 0, 0, 0), (1, 1, 1, 1, 1), (1, 1, 0, 0, 0), (0, 1, 1, 0, 1)):
+                                    for wc in b["writer_configs"]:
+                                        out.append([{"mix": mix, "kern": kern, "anch": anch, "ls": list(ls),
+                                                     "user": user, "flavour": fl, "writers": wc}])
                                 if user == "none" and sum(ls) in (0, 5) or ls == (1, 1, 0, 0, 0):
                                     for prev in ("latn+cyrl", "arab", "deva"):
                                         if prev != mix:
@@ -247,6 +269,14 @@ class C20(Property):
             prev = make_spec(c["prev"], c["kern"], c["anch"], [1, 1, 0, 1, 1], "none")
             fn(B.build_font(prev), useProductionNames=False, featureWriters=writers)
             kw["featureWriters"] = writers
+        if c.get("writers"):
+            wc = WRITER_CONFIGS[c["writers"]]
+            if wc == "args":
+                from ufo2ft.featureWriters import (CursFeatureWriter, GdefFeatureWriter, KernFeatureWriter,
+                                                   MarkFeatureWriter)
+                kw["featureWriters"] = [MarkFeatureWriter, GdefFeatureWriter(), KernFeatureWriter(), CursFeatureWriter]
+            else:
+                font.lib[KEY] = [dict(w) for w in wc]
         if c["flavour"] == "vttf":
             import copy
             spec2 = copy.deepcopy(spec)
@@ -319,6 +349,7 @@ class C20(Property):
                                  "script_supported": tag in known_tags or tag == "DFLT",
                                  "dflt_declared": ("DFLT", "dflt") in declared or not declared,
                                  "reused_writers": bool(c.get("prev")),
+                                 **({"writers": c["writers"]} if c.get("writers") else {}),
                                  "langsys": "default" if lang is None else "named",
                                  "script": "DFLT" if tag == "DFLT" else "other"},
                                 script=tag, language=lang, listed=sorted(feats), example_pair=acts[0],
